@@ -248,6 +248,7 @@ def run_param(d):
         for pin in p.pin_mapping:          # no solve here: the FIRST solve of a part may be the argument-less one
             by_pin[pin.name] = p
     observed = []
+    kept = []
     for kw in d["assign"]:
         for (i, o) in ends:
             p = by_pin[i]
@@ -257,9 +258,12 @@ def run_param(d):
             r = p.solve(**kw2)
             if sorted(x.name for x in r.pin_dic) != sorted([i, o]):
                 raise ValueError("a part owns other pins than its chain's")
-            for a in (i, o):
-                for b in (i, o):
-                    observed.append(complex(r.get_A(a, b)))
+            kept.append((r, i, o))
+    # every result is read only AFTER all the solves: a result is a snapshot, later solves must not rewrite it
+    for r, i, o in kept:
+        for a in (i, o):
+            for b in (i, o):
+                observed.append(complex(r.get_A(a, b)))
     if not d.get("late_default"):
         # ... and the ORIGINAL answers as before after its parts have been solved (split() hands out copies)
         again = []
